@@ -591,6 +591,74 @@ def r06_9(ctx, counts: dict[str, int]) -> RuleResult:
     counts['float_dunders'] = n
     return res
 
+def r06_10(ctx, counts: dict[str, int]) -> RuleResult:
+    """fn:round($arg, $precision): the operand is returned unchanged only after the precision
+    was read, or when it is NaN / infinite / zero"""
+    from ..engine.cfg import CFG
+    from ..engine.dataflow import branch_facts
+    res = RuleResult(
+        'R06.10', 'ROUND-IDENTITY-NEEDS-PRECISION',
+        'For every finite non-zero number there is a negative $precision for which '
+        'fn:round($arg, $precision) differs from $arg (round(1.5e16, -16) is 2e16). In a '
+        'function bound to fn:round that reads a second argument, every `return <operand>` '
+        '(the first argument handed back unchanged) is therefore dominated by the read of the '
+        'second argument, or is reached only under a positive branch fact on math.isnan / '
+        'math.isinf of the operand or on the operand being zero. A fast path "a double above '
+        '2^52 has no fractional digits" placed before the precision is read fails it.')
+    bound = bound_symbols(ctx.reg)
+    n = 0
+    for f in sorted((f for f, sy in bound.items() if 'round' in sy), key=lambda q: q.key):
+        def reads_precision(x: ast.AST) -> bool:
+            return isinstance(x, ast.Call) and dotted(x.func).split('.')[-1] == 'get_argument' \
+                and (any(k.arg == 'index' and isinstance(k.value, ast.Constant)
+                         and k.value.value == 1 for k in x.keywords)
+                     or (len(x.args) > 1 and isinstance(x.args[1], ast.Constant)
+                         and x.args[1].value == 1))
+        if not any(reads_precision(x) for x in walk_local(f.node)):
+            continue
+        operand = None
+        for x in walk_local(f.node):
+            if isinstance(x, (ast.Assign, ast.AnnAssign)) and isinstance(x.value, ast.Call) \
+                    and dotted(x.value.func).split('.')[-1] == 'get_argument' \
+                    and not reads_precision(x.value):
+                t = x.targets[0] if isinstance(x, ast.Assign) else x.target
+                if isinstance(t, ast.Name):
+                    operand = t.id
+                    break
+        if operand is None:
+            raise AnalysisError(f'{f.key}: the operand of fn:round is not bound to a name')
+        cfg = CFG(f.node)
+        facts = branch_facts(cfg)
+        for nd in cfg.nodes:
+            if nd.kind != 'stmt' or not isinstance(nd.ast, ast.Return):
+                continue
+            v = nd.ast.value
+            if not (isinstance(v, ast.Name) and v.id == operand):
+                continue
+            n += 1
+            after = cfg.dominated_by(nd, lambda m: any(reads_precision(y) for y in m.walk()))
+            fs = facts[nd.id]
+            special = [fa for fa in fs if fa.startswith('+') and ' and ' not in fa and (
+                f'isnan({operand})' in fa or f'isinf({operand})' in fa
+                or fa[1:] in (f'{operand} == 0', f'not {operand}'))] + \
+                [fa for fa in fs if fa == f'-{operand}']
+            res.instances.append(f'{f.key}: L{nd.ast.lineno} `return {operand}` after the '
+                                 f'precision was read={after} special-value facts={special}')
+            if after or special:
+                res.ok()
+            else:
+                res.fail(finding('R06.10', f, nd.ast, f'return {operand} before the precision',
+                                 f'`return {operand}` at L{nd.ast.lineno} hands the operand back '
+                                 f'unchanged on a path that has not read the second argument '
+                                 f'and is not restricted to NaN/INF/zero (facts: {sorted(fs)}): '
+                                 f'with a negative precision the result must differ '
+                                 f'(round(1.5e16, -16) = 2e16)'))
+    counts['round_identity_returns'] = n
+    if n < 2:
+        raise AnalysisError(f'only {n} identity returns located in the two-argument fn:round '
+                            f'(2 confirmed: the NaN/INF return and the "no fractional digits" one)')
+    return res
+
 
 def run(ctx) -> dict:
     counts: dict[str, int] = {}
@@ -598,7 +666,7 @@ def run(ctx) -> dict:
         'results': [r06_1(ctx, counts), r06_2(ctx, counts), r06_3(ctx, counts), r06_4(ctx, counts),
                     r06_5(ctx, counts), r06_6(ctx, counts),
                     r06_7(ctx, counts), r06_8(ctx, counts),
-                    r06_9(ctx, counts)], 'counts': counts,
+                    r06_9(ctx, counts), r06_10(ctx, counts)], 'counts': counts,
         'explanation':
             'Decided: the rounding-mode clause of C06 and one IEEE clause (the sign of a zero '
             'divisor is never read through a comparison). Rounding: a who-may-call rule confines '
